@@ -488,6 +488,12 @@ func random(c *mon.Ctx, r *gen.Rand) {
 			if r.Chance(4) {
 				exp = 2
 			}
+			if r.Chance(6) {
+				// "any ... segment numbers": counters that are not kept (0), at their ends, out of step
+				ne := [][2]byte{{0, 0}, {1, 0}, {3, 0}, {0, 1}, {255, 255}, {255, 0}, {0, 255}, {2, 1}, {2, 2}}[r.Intn(9)]
+				num, exp = ne[0], ne[1]
+				t.pat["segment-counters-off-the-beaten-track"] = true
+			}
 			d := mk(typ, uint32(1+r.Intn(2)), pts, !r.Chance(12), num, exp)
 			if r.Chance(10) {
 				// segmentation_event_cancel_indicator: a field the bookkeeping is not stated to depend on
@@ -554,6 +560,16 @@ func random(c *mon.Ctx, r *gen.Rand) {
 			t.register(d1, 0x30, d1.EventID(), pts, true)
 			t.register(d2, 0x34, d2.EventID(), pts, true)
 			t.process(d1)
+			if r.Chance(3) {
+				// both descriptors of the signal are processed, then the first one arrives once more (the section
+				// was repeated): whatever the tracker makes of it, no descriptor is listed as open twice
+				t.pat["signal-with-two-descriptors-repeated"] = true
+				t.c.Count("event.first_descriptor_of_a_signal_again_after_its_sibling")
+				t.process(d2)
+				t.process(d1)
+				t.process(d2)
+				continue
+			}
 			if r.Bool() {
 				ts.SetHasPTS(false)
 			} else {
@@ -613,7 +629,12 @@ func pooled(c *mon.Ctx, r *gen.Rand) {
 			}
 		}
 		t.close(between)
-		d := mk(closer, uint32(1+r.Intn(events)), pick(), true, 1, 1)
+		cn, ce := byte(1), byte(1)
+		if r.Chance(3) {
+			ne := [][2]byte{{0, 0}, {1, 0}, {3, 0}, {0, 1}, {255, 0}, {1, 2}, {2, 2}}[r.Intn(7)]
+			cn, ce = ne[0], ne[1]
+		}
+		d := mk(closer, uint32(1+r.Intn(events)), pick(), true, cn, ce)
 		t.register(d, closer, d.EventID(), uint64(d.SCTE35().PTS()), true)
 		t.process(d)
 		t.pat["neighbours-after-explicit-close"] = true
@@ -630,7 +651,12 @@ func pooled(c *mon.Ctx, r *gen.Rand) {
 			if r.Chance(10) {
 				typ = r.PickByte([]byte{0x00, 0x02, 0x12, 0x18, 0x1f, 0x33, 0x3d, 0x46, 0x4f, 0x52, 0x53, 0x7f, 0x80, 0xfe, 0xff, r.Byte()})
 			}
-			d := mk(typ, uint32(1+r.Intn(events)), pts, true, 1, 1)
+			pn, pe := byte(1), byte(1)
+			if r.Chance(4) {
+				ne := [][2]byte{{0, 0}, {1, 0}, {3, 0}, {0, 1}, {255, 0}, {1, 2}, {2, 2}}[r.Intn(7)]
+				pn, pe = ne[0], ne[1]
+			}
+			d := mk(typ, uint32(1+r.Intn(events)), pts, true, pn, pe)
 			t.register(d, typ, d.EventID(), pts, true)
 			t.process(d)
 		case op < 13:
